@@ -41,7 +41,7 @@ def jobs_stall(rng, thorough):
 
 
 def run(ctx: core.Ctx):
-    ctx.lean_stage()
+    ctx.lean_stage(extra_props=("C20x",))
     b2check.run_b2(ctx, jobs, ["C20"], label="log scenarios", log_visible=True)
     b2check.run_b2(ctx, jobs_preempt, ["C20"], label="log scenarios with preemption (monitor only for the log)", accept_log_size=0)
     b2check.run_b2(ctx, jobs_stall, ["C20"], label="log scenarios with stalled threads (monitor only)", accept=False)
